@@ -308,7 +308,8 @@ def dur_value(obs):
 def norm_comps(ac):
     if ac is None:
         return None
-    return [(int(n), int(d), None if t is None else int(t)) for n, d, t in ac]
+    # components with a zero numerator carry no value; whether they are kept is not compared
+    return [(int(n), int(d), None if t is None else int(t)) for n, d, t in ac if int(n) != 0]
 
 
 def eq_dur(obs, comps):
@@ -530,7 +531,7 @@ def compare_fields(res, clause, obj, vws, ctx, where):
             if obs is MISSING or not field_ok(obs, typ, exp, extra):
                 bad += 1
                 res.fail(clause, expected="%s%s = %r" % (label, name, exp),
-                         observed="missing" if obs is MISSING else show(obs), where=where, detail=ctx)
+                         observed="missing" if obs is MISSING else show(obs), where="%s:%s%s" % (where, label, name), detail=ctx)
     return bad
 
 
@@ -561,7 +562,7 @@ def same_objects(res, clause, x, y, vws, ctx, where):
                 continue
             if not same:
                 res.fail(clause, expected="%s%s == %s" % (label, n, show(a)),
-                         observed="missing" if b is MISSING else show(b), where=where, detail=ctx)
+                         observed="missing" if b is MISSING else show(b), where="%s:%s%s" % (where, label, n), detail=ctx)
 
 
 # ------------------------------------------------------------------------------------------------
@@ -786,7 +787,7 @@ def eval_fsd(case, res):
     if not isinstance(y, F):
         res.fail("duration-parse", expected="FractionalSymbolicDuration", observed=type(y).__name__, where="FractionalSymbolicDuration.from_string", detail=ctx)
         return "kind"
-    if dur_value(y) != dur_value(x) or float(y) != float(x):
+    if not bounded and (dur_value(y) != dur_value(x) or float(y) != float(x)):
         res.fail("duration-roundtrip-value", expected=show(x), observed=show(y), where="FractionalSymbolicDuration.from_string", detail=ctx)
     if not bounded and not eq_dur(y, comps):
         res.fail("duration-roundtrip-value", expected=comps, observed=show(y), where="FractionalSymbolicDuration.from_string", detail=ctx)
@@ -797,7 +798,7 @@ def eval_fsd(case, res):
         res.fail("rewrite-fixpoint", expected=s, observed=s2, where="FractionalSymbolicDuration.__str__", detail=ctx)
     # the interpreter used by the line classes
     ok, y2 = call(res, "duration-parse", ctx, M().U.interpret_as_fractional, s)
-    if ok and not (isinstance(y2, F) and dur_value(y2) == dur_value(x) and str(y2) == s):
+    if ok and not (isinstance(y2, F) and (bounded or dur_value(y2) == dur_value(x)) and str(y2) == s):
         res.fail("duration-roundtrip-value", expected=show(x), observed=show(y2), where="interpret_as_fractional", detail=ctx)
     return "bounded" if bounded else ("sum%d" % len(nz) if len(comps) > 1 else "plain")
 
@@ -1012,7 +1013,7 @@ def families(tier_x, limit):
     for v in A.ALL_VERSIONS:
         add("snote", "snote", v, f_snote(v, x, False))
         add("note", "note", v, f_note(v, x, False))
-        add("pair", "pair", v, f_snote(v, x, True, "s.") + f_note(v, x, True, "n."))
+        add("pair", "pair", v, f_snote(v, x, not x, "s.") + f_note(v, x, not x, "n."))
         dels = ["deletion"] if is_v1(v) else list(DELETIONS)
         for k in dels:
             add("deletion", k, v, f_snote(v, x, not x, "s."))
@@ -1148,13 +1149,13 @@ def version_cases(x):
 
 
 QUICK_LIMIT = 1500
-THOROUGH_LIMIT = 60000
-NBLOCKS = 12
+THOROUGH_LIMIT = 45000
+NBLOCKS = 8
 
 BOUNDS = {
     "snote": "score-note lines of 0.1.0-0.5.0 and 1.0.0: anchor x 105 pitch spellings + rest x measure x beat x offset x duration x two beat times x attribute list",
     "note": "performed-note lines: id x 105 pitch spellings (0.x) or MIDI pitch/channel/track (1.0.0) x onset x offset x adjusted offset x velocity",
-    "pair": "snote-note lines, all versions, reduced alphabets (7 pitches + rest, 4 durations, 4 floats per written precision)",
+    "pair": "snote-note lines, all versions (quick core: reduced alphabets - 7 pitches + rest, 4 durations, 4 floats per written precision; thorough scope: the full alphabets of snote and note)",
     "deletion": "deletion, trailing_score_note, no_played_note lines, all versions",
     "insertion": "insertion, hammer_bounce, trailing_played_note lines, all versions",
     "ornament": "trill lines (0.x) and ornament lines with type lists of length 0-3 (1.0.0)",
@@ -1177,8 +1178,10 @@ def spaces(tier, seed):
     core = families(thorough, THOROUGH_LIMIT if thorough else QUICK_LIMIT)
     extra = None if thorough else families(True, THOROUGH_LIMIT)
     block = seed % NBLOCKS
-    for name in ("snote", "note", "pair", "deletion", "insertion", "ornament", "pedal", "info", "meta", "scoreprop",
-                 "section", "stime-ptime"):
+    for name, fn in (("version", version_cases), ("timesig", time_cases), ("keysig", key_cases), ("duration", duration_cases)):
+        out.append(Space(name, (lambda fn=fn: fn(thorough)), exhaustive=True, bounds=BOUNDS[name] + " - complete"))
+    for name in ("pedal", "info", "meta", "scoreprop", "section", "stime-ptime", "ornament", "insertion", "note",
+                 "snote", "deletion", "pair"):
         def cases(name=name):
             for g in core[name]:
                 for c in g():
@@ -1192,8 +1195,6 @@ def spaces(tier, seed):
         if extra is not None:
             how += "; plus every %d-th case (offset VERIF_SEED mod %d) of the thorough enumeration" % (NBLOCKS, NBLOCKS)
         out.append(Space(name, cases, exhaustive=True, bounds=BOUNDS[name] + " - " + how))
-    for name, fn in (("duration", duration_cases), ("keysig", key_cases), ("timesig", time_cases), ("version", version_cases)):
-        out.append(Space(name, (lambda fn=fn: fn(thorough)), exhaustive=True, bounds=BOUNDS[name] + " - complete"))
     return out
 
 
